@@ -76,8 +76,12 @@ MIXES = {
     "external_other": [("e1", "external_other", 300, "main"), ("e2", "external_other", 3, "main"), ("n", "ndarray", 9, "main"), ("big", "bf16_2d", 5000, "main")],
     "many_small": [(f"s{i}", "ndarray", (3, 9)[i % 2], "main") for i in range(6)] + [("odd", "int4", 3, "main"), ("f", "f32", 9, "main")],
     "sizes": [(f"t{n}", "ndarray", n, "main") for n in SIZES] + [("u2big", "uint2", 300, "main")],
+    # initializers two and three graph levels below the main graph (If inside an If branch inside an If branch)
+    "nested_subgraphs": [("m", "ndarray", 300, "main"), ("b1", "ndarray", 300, "body"), ("d1", "ndarray", 300, "deep"), ("d2", "lazy", 9, "deep"), ("dd", "ndarray", 5000, "deeper")],
     "resave_in_place": "special",
 }
+# mixes whose sources are external tensors are also saved with a kernel that copies at most 64 bytes per call
+SHORT_KERNEL_COPY_MIXES = ("external_other", "resave_in_place")
 
 
 def build_model(mix, root):
@@ -91,7 +95,7 @@ def build_model(mix, root):
         m.graph.initializers.add(extra)
         return m
     objs = {}
-    main_vals, body_vals = [], []
+    main_vals, body_vals, deep_vals, deeper_vals = [], [], [], []
     for i, (vname, kind, n, where) in enumerate(spec):
         if kind.startswith("same:"):
             t = objs[kind[5:]]
@@ -100,13 +104,32 @@ def build_model(mix, root):
             t.name = vname
         objs[vname] = t
         v = ir.Value(name=vname, const_value=t)
-        (main_vals if where == "main" else body_vals).append(v)
+        {"main": main_vals, "body": body_vals, "deep": deep_vals, "deeper": deeper_vals}[where].append(v)
     x = ir.Value(name="x", type=ir.TensorType(ir.DataType.BOOL), shape=ir.Shape([]))
     nodes = []
     if body_vals:
         bn = ir.Node("", "Identity", [body_vals[0]], name="bn")
         bn.outputs[0].name = "bo"
-        body = ir.Graph([], [bn.outputs[0]], nodes=[bn], initializers=body_vals, name="body")
+        body_nodes = [bn]
+        if deep_vals:
+            def branch(name, vals, extra_nodes=()):
+                nd = ir.Node("", "Identity", [vals[0]], name=f"{name}_n")
+                nd.outputs[0].name = f"{name}_o"
+                return ir.Graph([], [nd.outputs[0]], nodes=[*extra_nodes, nd], initializers=vals, name=name)
+
+            def cond(name, then_g):
+                en2 = ir.Node("", "Identity", [main_vals[0]], name=f"{name}_en")
+                en2.outputs[0].name = f"{name}_eo"
+                else_g = ir.Graph([], [en2.outputs[0]], nodes=[en2], name=f"{name}_else")
+                nd = ir.Node("", "If", [x], [ir.AttrGraph("then_branch", then_g), ir.AttrGraph("else_branch", else_g)], name=name)
+                nd.outputs[0].name = f"{name}_y"
+                return nd
+
+            inner = []
+            if deeper_vals:
+                inner = [cond("if_deeper", branch("deeper", deeper_vals))]
+            body_nodes.append(cond("if_deep", branch("deep", deep_vals, inner)))
+        body = ir.Graph([], [bn.outputs[0]], nodes=body_nodes, initializers=body_vals, name="body")
         body2 = ir.Graph([], [], nodes=[], name="body2")
         e = ir.Node("", "Identity", [body_vals[0]], name="en")  # else-branch reads the then-branch... no: use main value
         del e
@@ -169,7 +192,27 @@ def grid(tier, backend):
         yield kw, d, p
 
 
-def check_save(mix, backend, kw, dest, pathspell, root):
+def _short_copy_file_range(fd_in, fd_out, count, offset_src=None, offset_dst=None):
+    """copy_file_range that, as the system call may, copies fewer bytes than requested (at most 64 per call)."""
+    if offset_src is None or offset_dst is None:
+        raise OSError(22, "emulation needs explicit offsets")
+    buf = os.pread(fd_in, min(count, 64), offset_src)
+    os.pwrite(fd_out, buf, offset_dst)
+    return len(buf)
+
+
+def check_save(mix, backend, kw, dest, pathspell, root, short_copy=False):
+    saved = getattr(os, "copy_file_range", None)
+    if short_copy and saved is not None:
+        os.copy_file_range = _short_copy_file_range
+    try:
+        return _check_save(mix, backend, kw, dest, pathspell, root)
+    finally:
+        if saved is not None:
+            os.copy_file_range = saved
+
+
+def _check_save(mix, backend, kw, dest, pathspell, root):
     """Returns (outcome, violations)."""
     v = []
     wd = os.path.join(root, "work")
@@ -296,12 +339,13 @@ def _work(task):
     found = {}
     try:
         for kw, dest, p in grid(tier, backend):
-            n += 1
-            out, v = check_save(mix, backend, kw, dest, p, root)
-            outcomes[out] = outcomes.get(out, 0) + 1
-            for clause, detail in v:
-                key = f"{backend}|{clause}|{mix}"
-                found.setdefault(key, {"mix": mix, "backend": backend, "options": {k: x for k, x in kw.items()}, "dest": dest, "path": p, "clause": clause, "detail": detail})
+            for short in ((False, True) if (backend == "raw" and mix in SHORT_KERNEL_COPY_MIXES) else (False,)):
+                n += 1
+                out, v = check_save(mix, backend, kw, dest, p, root, short_copy=short)
+                outcomes[out] = outcomes.get(out, 0) + 1
+                for clause, detail in v:
+                    key = f"{backend}|{clause}|{mix}"
+                    found.setdefault(key, {"mix": mix, "backend": backend, "options": {k: x for k, x in kw.items()}, "dest": dest, "path": p, "clause": clause, "detail": detail, "short_copy": short})
     finally:
         shutil.rmtree(root, ignore_errors=True)
     return mix, backend, n, outcomes, found
@@ -322,7 +366,7 @@ def main(tier):
             found.setdefault(k, x)
     for key, f in sorted(found.items()):
         r.violation(key, f"{f['clause']} [{f['mix']} {f['backend']} {f['options']} dest={f['dest']} path={f['path']}]: {f['detail']}",
-                    {"engine": "E6", "input": {k: f[k] for k in ("mix", "backend", "options", "dest", "path")}, "oracle": f["clause"], "detail": f["detail"]})
+                    {"engine": "E6", "input": {k: f.get(k) for k in ("mix", "backend", "options", "dest", "path", "short_copy")}, "oracle": f["clause"], "detail": f["detail"]})
     r.sample({"mix": "kinds", "backend": "raw", "options": {"size_threshold_bytes": 8, "max_shard_size_bytes": 400, "max_workers": 2, "alignment": 4096, "align_threshold": 100}, "dest": "sub/m.fp16.data", "path": "bare"})
     r.sample({"mix": "shared_object", "backend": "safetensors", "options": {"size_threshold_bytes": 256, "max_shard_size_bytes": 10}})
     r.coverage.update({
@@ -340,7 +384,7 @@ def replay(obj):
     inp = obj["input"]
     root = common.scratch_dir("c07")
     try:
-        out, v = check_save(inp["mix"], inp["backend"], inp["options"], inp["dest"], inp["path"], root)
+        out, v = check_save(inp["mix"], inp["backend"], inp["options"], inp["dest"], inp["path"], root, short_copy=bool(inp.get("short_copy")))
     finally:
         shutil.rmtree(root, ignore_errors=True)
     bad = [c for c in v if c[0] == obj["oracle"]]
